@@ -4,6 +4,7 @@ Synchronous Policy class - unified resilience container.
 Uses shared helpers from execution.py for circuit breaker integration.
 """
 
+import asyncio
 from collections.abc import Callable
 from typing import Any
 
@@ -102,7 +103,7 @@ class Policy:
             record_success(ctx)
             return result
 
-        except (KeyboardInterrupt, SystemExit):
+        except (asyncio.CancelledError, KeyboardInterrupt, SystemExit):
             record_cancel(ctx)
             raise
         except AbortRetryError as exc:
@@ -280,7 +281,7 @@ class Policy:
                 on_attempt_end=on_attempt_end,
                 capture_timeline=capture_timeline,
             )
-        except (KeyboardInterrupt, SystemExit):
+        except (asyncio.CancelledError, KeyboardInterrupt, SystemExit):
             record_cancel(ctx)
             raise
         except RetryExhaustedError as exc:
@@ -331,7 +332,7 @@ class Policy:
                 )
             return build_aborted_outcome(ctx, attempts=1)
 
-        except (KeyboardInterrupt, SystemExit):
+        except (asyncio.CancelledError, KeyboardInterrupt, SystemExit):
             record_cancel(ctx)
             raise
 
